@@ -14,6 +14,7 @@ mod c06;
 mod c07;
 mod c08;
 mod c11;
+mod c12;
 mod c14;
 mod c15;
 mod c16;
@@ -43,6 +44,7 @@ fn main() {
         "c18-parse" => c18::parse(rest),
         "c16-queue" => c16::queue(rest),
         "c11-drive" => c11::drive(rest),
+        "c12-drive" => c12::drive(rest),
         "c14-drive" => c14::drive(rest),
         "c14-replay" => c14::replay(),
         "c15-replay" => c15::replay(rest),
